@@ -1356,6 +1356,13 @@ def judge_program(ctx, p, res, ans_main, ansF, stats):
         tol = TOL
         if val is None or not close(val, lv, tol):
             ctx.disagree(base, c, lv, val, "py-pde value differs from the model's value")
+        if pv is None and is_d:
+            # no numerical derivative (the formula is not smooth / not real in a neighbourhood for mpmath): the monitor
+            # falls back on the model's `diff`, which `diff_sound` proves to be the derivative of the formula
+            pv = lv
+            ctx.hist("derivative_reference", "model-diff")
+        elif is_d:
+            ctx.hist("derivative_reference", "mpmath")
         if pv is not None:
             # derivatives: the numerical derivative (mpmath, 30 digits) of the written formula is the independent
             # reference of the monitor; the model's `diff` is the other
